@@ -19,6 +19,7 @@ struct Ctx {
 
 #[derive(Clone, Hash)]
 struct Model {
+    advances: u8,
     members: [bool; 2],
     owner: usize,
     count: u32,
@@ -44,6 +45,7 @@ enum Act {
     /// 4 = the caller, but for a different forwarded function with the same arguments,
     /// 5 = the caller, but for a different target contract
     Execute { caller: usize, auth: u8, target: Target },
+    Advance(u32),
 }
 
 struct C17;
@@ -78,11 +80,14 @@ impl Scenario for C17 {
         let ops = env.register(axelar_operators::AxelarOperators, (p[3].clone(),));
         let probe = env.register(Probe, ());
         let probe2 = env.register(Probe, ());
-        (Ctx { w, ops, probe, probe2, p }, Model { members: [false; 2], owner: 3, count: 0 })
+        (Ctx { w, ops, probe, probe2, p }, Model { advances: 0, members: [false; 2], owner: 3, count: 0 })
     }
 
     fn actions(&self, _ctx: &Ctx, m: &Model) -> Vec<Act> {
         let mut v = vec![];
+        if m.advances < 1 {
+            v.push(Act::Advance(20));
+        }
         for acct in 0..2 {
             for by in [3usize, 4, 5] {
                 v.push(Act::AddOp { acct, by });
@@ -121,6 +126,13 @@ impl Scenario for C17 {
         let h0 = w.state_hash();
         let opsc = w.sc_addr(&ctx.ops);
         match a {
+            Act::Advance(n) => {
+                out.kind = "advance";
+                out.accepted = true;
+                w.set_seq(w.seq() + n);
+                w.set_time(w.now() + 5 * *n as u64);
+                m.advances += 1;
+            }
             Act::AddOp { acct, by } | Act::RemoveOp { acct, by } => {
                 let add = matches!(a, Act::AddOp { .. });
                 out.kind = if add { "add_operator" } else { "remove_operator" };
